@@ -36,6 +36,16 @@ def digitsW (tbl : List Char) (b : Nat) : Nat → Nat → List Char
   | 0, _ => []
   | w + 1, n => digitsW tbl b w (n / b) ++ [chr tbl (n % b)]
 
+/-- the decoder loop over a digit string: `acc ← b·acc + lookup c`, failing on a non-digit -/
+def readNumFrom (tbl : List Char) (b : Nat) : Nat → List Nat → Option Nat
+  | acc, [] => some acc
+  | acc, c :: cs =>
+    match lookup tbl c with
+    | none => none
+    | some d => readNumFrom tbl b (b * acc + d) cs
+
+def readNum (tbl : List Char) (b : Nat) (s : List Nat) : Option Nat := readNumFrom tbl b 0 s
+
 def startsInv (s : List Nat) (pat : List Nat) : Bool :=
   s.length ≥ pat.length && (s.take pat.length).map upper == pat
 
